@@ -1178,7 +1178,7 @@ theorem ginv_init : GInv [] [] Impl.init := by
   · rw [absG_nil]; exact good_init.nm
   · rw [absG_nil]; exact good_init.inv
 
-theorem insts_same_h' {l : List Inst} (hnd : (l.map (·.h)).Nodup) {i j : Inst} (hi : i ∈ l) (hj : j ∈ l)
+theorem insts_same_hL {l : List Inst} (hnd : (l.map (·.h)).Nodup) {i j : Inst} (hi : i ∈ l) (hj : j ∈ l)
     (e : i.h = j.h) : i = j := by
   induction l with
   | nil => simp at hi
@@ -1481,7 +1481,7 @@ theorem isOpenG {hid dy : List Nat} {s : Impl} (hg : GInv hid dy s) {h : Nat} {i
   simp only [Reg.isOpen, absG, List.any_eq_true, List.mem_map, Bool.and_eq_true, beq_iff_eq]
   constructor
   · rintro ⟨m, ⟨j, hj, rfl⟩, e1, e2⟩
-    have : j = i := insts_same_h' hg.nd (mem_vis.mp hj).1 hi (by rw [hih]; exact e1)
+    have : j = i := insts_same_hL hg.nd (mem_vis.mp hj).1 hi (by rw [hih]; exact e1)
     subst this
     simpa [absI, hih] using e2
   · intro e
@@ -1665,7 +1665,7 @@ theorem modsG_only {hid dy : List Nat} {s : Impl} (hg : GInv hid dy s) {h : Nat}
   intro m hm e
   simp only [absG, List.mem_map] at hm
   obtain ⟨j, hj, rfl⟩ := hm
-  have : j = i := insts_same_h' hg.nd (mem_vis.mp hj).1 hi (by rw [hih]; exact e)
+  have : j = i := insts_same_hL hg.nd (mem_vis.mp hj).1 hi (by rw [hih]; exact e)
   rw [this]
 
 theorem act_closeModule {hid dy : List Nat} {s : Impl} (hg : GInv hid dy s) (h c : Nat) (pc : Pc)
@@ -2333,7 +2333,7 @@ theorem ltrace_filter (c : Conc) (sched : List Nat) :
 
 /-! ### the forward simulation over interleavings -/
 
-theorem getElem?_updThread_self (t : Nat) (f : Thread → Thread) (l : List Thread) (th : Thread)
+theorem getElemOpt_updThread_self (t : Nat) (f : Thread → Thread) (l : List Thread) (th : Thread)
     (h : l[t]? = some th) : (updThread t f l)[t]? = some (f th) := by
   induction l generalizing t with
   | nil => simp at h
@@ -2342,7 +2342,7 @@ theorem getElem?_updThread_self (t : Nat) (f : Thread → Thread) (l : List Thre
     | zero => simp at h; simp [updThread, h]
     | succ t => simp at h; simp [updThread, ih t h]
 
-theorem getElem?_updThread_ne (t u : Nat) (f : Thread → Thread) (l : List Thread) (hne : u ≠ t) :
+theorem getElemOpt_updThread_ne (t u : Nat) (f : Thread → Thread) (l : List Thread) (hne : u ≠ t) :
     (updThread t f l)[u]? = l[u]? := by
   induction l generalizing t u with
   | nil => simp [updThread]
@@ -2455,9 +2455,9 @@ theorem winv_upd {c : Conc} {hid dy : List Nat} {d : DiscSt} (hw : WInv c hid dy
     intro u thu h
     by_cases e : u = t
     · subst e
-      rw [getElem?_updThread_self _ _ _ th hth] at h
+      rw [getElemOpt_updThread_self _ _ _ th hth] at h
       exact Or.inl ⟨rfl, by simpa using h.symm⟩
-    · rw [getElem?_updThread_ne _ _ _ _ e] at h
+    · rw [getElemOpt_updThread_ne _ _ _ _ e] at h
       exact Or.inr ⟨e, h⟩
   refine ⟨hg, ?_, husedI, ?_, ?_, hok⟩
   · intro u thu op pc h1 h2
@@ -2480,8 +2480,8 @@ theorem pendOf_upd {c : Conc} {t : Nat} {th : Thread} (hth : c.threads[t]? = som
     pendOf (updConc c s' t th1) u =
       if u = t then (match th1.cur with | none => none | some (op, pc) => some (op, post pc)) else pendOf c u := by
   by_cases e : u = t
-  · subst e; simp [pendOf, updConc, getElem?_updThread_self _ _ _ th hth]
-  · simp [pendOf, updConc, getElem?_updThread_ne _ _ _ _ e, e]
+  · subst e; simp [pendOf, updConc, getElemOpt_updThread_self _ _ _ th hth]
+  · simp [pendOf, updConc, getElemOpt_updThread_ne _ _ _ _ e, e]
 
 theorem pendOf_self {c : Conc} {t : Nat} {th : Thread} (hth : c.threads[t]? = some th) :
     pendOf c t = (match th.cur with | none => none | some (op, pc) => some (op, post pc)) := by
